@@ -350,10 +350,20 @@ def main(argv):
     # ---- 3. verdict ----------------------------------------------------------
     known = [k for k in load_known() if k["property"] == prop and k["status"] == "known"]
     known_classes = {k["class"]: k for k in known}
-    unlisted = [v for v in violations if v[0] not in known_classes]
+
+    def is_listed(v):
+        # a recorded finding covers a violation of its class - and, when the entry names the inputs it is about
+        # (case_pattern, a regular expression on the case line), only on those inputs
+        k = known_classes.get(v[0])
+        if k is None:
+            return False
+        pat = k.get("case_pattern")
+        return pat is None or re.search(pat, v[2] or v[1]) is not None
+
+    unlisted = [v for v in violations if not is_listed(v)]
     listed = {}
     for v in violations:
-        if v[0] in known_classes:
+        if is_listed(v):
             listed.setdefault(v[0], []).append(v)
     rc = 0
     for cls, vs in sorted(listed.items()):
